@@ -56,8 +56,8 @@ type c10ParentInfo struct {
 
 func mkC10Parent(name string) c10ParentInfo {
 	pi := c10ParentInfo{kind: vChoose(name+".kind", 4)}
-	pi.prot = ProtectedHeader(mkBenignMap(name+".p", 1, false))
-	un := UnprotectedHeader(mkBenignMap(name+".u", 1, false))
+	pi.prot = ProtectedHeader(mkBenignMap(name+".p", 1+vTier(), vTier() == 1))
+	un := UnprotectedHeader(mkBenignMap(name+".u", 1+vTier(), false))
 	h := Headers{Protected: pi.prot, Unprotected: un}
 	ptr := vChoose(name+".ptr", 2) == 0
 	pi.sig = vBlobN(name+".sig", 1, 1<<20)
